@@ -1,5 +1,5 @@
 CONSTANTS
-  Clauses = {"Returns", "EventsLocatedInOrder", "EventsBracketed", "RecipeReadAsSpecified", "SilentWhenSpecifiedSilent", "DiagnosedAsSpecified"}
+  Clauses = {"Returns", "EventsLocatedInOrder", "EventsBracketed", "RecipeReadAsSpecified", "SilentWhenSpecifiedSilent", "DiagnosedAsSpecified", "AstReturns", "AstNodesAreEventNodes"}
 INIT TInit
 NEXT TNext
 CHECK_DEADLOCK FALSE
